@@ -251,15 +251,39 @@ Definition apply_mw (fl : flavour) (cfg : config) (m : mw) (r : response) : resp
 Definition mw_event (ev : event) (m : mw) : list event :=
   match m with Mw _ _ => [ev] | MwDigest _ => [] end.
 
-(* for _, f := range c.afterResponse { if e := f(c, resp); e != nil { resp.Err = e } } - user part *)
+(* SetCommonDigestAuth PREPENDS its middleware to client.afterResponse (e430ccb): the digest
+   middleware of the client run first - the later registered the earlier - before the built-in
+   parseResponseBody / handleDownload and before every user function.  [digest_body] = whose
+   body the response carries afterwards. *)
+Definition digest_triggers (d : digest_oracle) (r : response) : bool :=
+  negb (is_some (r_err r) || negb (r_present r) || negb (r_status r =? 401)) && negb (is_some (d_pre d)).
+
+Definition digest_body (d : digest_oracle) (r : response) (b : body_oracle) : body_oracle :=
+  if digest_triggers d r then match d_resend d with TResp _ _ b' => b' | TFail _ => b end else b.
+
+Fixpoint run_cli_digests (fl : flavour) (cfg : config) (ms : list mw) (b : body_oracle) (r : response)
+  : response * body_oracle * list event :=
+  match ms with
+  | [] => (r, b, [])
+  | Mw _ _ :: rest => run_cli_digests fl cfg rest b r
+  | MwDigest d :: rest =>
+    let '(r1, b1, l1) := run_cli_digests fl cfg rest b r in
+    let '(r2, e, l2) := digest_mw fl cfg d r1 in
+    let r3 := match e with Some x => set_err (Some x) r2 | None => r2 end in
+    (r3, digest_body d r1 b1, l1 ++ l2)
+  end.
+
+(* for _, f := range c.afterResponse { if e := f(c, resp); e != nil { resp.Err = e } } - the user
+   functions, in registration order (digest entries of the list have run already) *)
 Fixpoint run_cli (fl : flavour) (cfg : config) (ms : list mw) (i : nat) (r : response) : response * list event :=
   match ms with
   | [] => (r, [])
-  | m :: rest =>
-    let '(r1, e, l1) := apply_mw fl cfg m r in
+  | MwDigest _ :: rest => run_cli fl cfg rest (S i) r
+  | Mw s t :: rest =>
+    let '(r1, e, l1) := apply_mw fl cfg (Mw s t) r in
     let r2 := match e with Some x => set_err (Some x) r1 | None => r1 end in
     let '(r3, l3) := run_cli fl cfg rest (S i) r2 in
-    (r3, mw_event (EvCli i) m ++ l1 ++ l3)
+    (r3, [EvCli i] ++ l1 ++ l3)
   end.
 
 (* Client.roundTrip: returns (resp, err) with err = resp.Err (deferred reconciliation: no path
@@ -272,11 +296,12 @@ Definition round_trip (fl : flavour) (cfg : config) (a : attempt) : option respo
     let '(r1, e, b) := receive (a_transport a) r0 in
     let r2 := set_err e r1 in                                (* httpResponse, resp.Err = c.httpClient.Do(...) *)
     let r3 := auto_read (c_autoread cfg) autoread_status_ok b r2 in
+    let '(r3d, bd, l_d) := run_cli_digests fl cfg (a_cli a) b r3 in
     (* built-in client.afterResponse: parseResponseBody, handleDownload (no output configured) *)
-    let '(r4, e4) := parse_response_body (c_targets cfg) b r3 in
+    let '(r4, e4) := parse_response_body (c_targets cfg) bd r3d in
     let r5 := match e4 with Some x => set_err (Some x) r4 | None => r4 end in
     let '(r6, l) := run_cli fl cfg (a_cli a) 0 r5 in
-    (Some r6, r_err r6, EvSend :: l)
+    (Some r6, r_err r6, EvSend :: l_d ++ l)
   end.
 
 (* ---------- wrapping round-trippers: the last registered is the outermost ---------- *)
